@@ -35,6 +35,11 @@ def main():
                     open(os.path.join(dp, f), "w").write("content %d %s" % (k, f))
             cmd = rnd.choice(["cp", "mv", "ln", "ln-sym"])
             kw = LO.rnd_kwargs(rnd, times)
+            # the command line takes the window as UTC text: render the same instants in UTC (the listing oracle also draws other offsets)
+            import datetime as _dt
+            for k_ in ("starttime", "endtime"):
+                if k_ in kw:
+                    kw[k_] = kw[k_].replace(tzinfo=_dt.timezone.utc) if kw[k_].tzinfo is None else kw[k_].astimezone(_dt.timezone.utc)
             args = [cmd.split("-")[0]]
             if cmd == "ln-sym":
                 args.append("--symbolic")
